@@ -15,3 +15,7 @@ func VerifNewConn(conn net.Conn, isServer bool, readBufferSize, writeBufferSize 
 	}
 	return c
 }
+
+// VerifWriteTokenFree reports whether the write token (the one-element channel that serialises frame writes) is in its
+// channel, i.e. no write is in progress and none was abandoned without returning it.
+func VerifWriteTokenFree(c *Conn) bool { return len(c.mu) == 1 }
